@@ -1,6 +1,6 @@
 """props.py -- per-property check definitions: generators, correspondence scope, implementation-level
 oracles, known-finding classes."""
-import os, random, json, hashlib
+import os, random, json, hashlib, re, subprocess, shutil
 import common
 from common import *
 import gen_api
@@ -1780,3 +1780,168 @@ def run_c14(ctx):
 REGISTRY["C14"] = dict(module="Properties_C14", run=run_c14,
                        trusted=["tools/gen_census.py (clang AST census of writable static objects and their writers)",
                                 "ThreadSanitizer (gcc -fsanitize=thread) as race detector for the harness runs"])
+
+
+# ------------------------------------------------------------------------------------------
+# C19 (options) and C01 (round trip): writer
+
+def option_vectors(rng, n_random):
+    vs = [(0x16, 2, 6, 0)]
+    base = 0x16
+    for bit in (2, 4, 8, 16, 32):
+        vs.append((base ^ bit, 2, 6, 0))
+    for tab in (0, 1, 3, 8, 15, 16, 200):
+        vs.append((base, tab, 6, 0))
+    for prec in (0, 1, 3, 15, 17):
+        vs.append((base, 2, prec, 0))
+        vs.append((base | 32, 2, prec, 0))
+    vs.append((base, 2, 6, 1))
+    for _ in range(n_random):
+        vs.append((rng.randrange(64) & ~1, rng.choice([0, 1, 2, 4, 15, 16]), rng.choice([0, 1, 2, 6, 10, 15]), rng.choice([0, 1])))
+    return vs
+
+
+def norm_tokens(text):
+    """documented tokenisation of a written configuration, with the option-governed spellings erased"""
+    toks = speclex.tokens(text)
+    out = []
+    for t in toks:
+        if not t.startswith("K "):
+            out.append(t)
+            continue
+        k = t.split(" ")[1]
+        if k == "p;":
+            continue
+        if k[0] == "f":
+            out.append("F")
+        elif k[0] in "ix":
+            out.append("N32:" + k[1:])
+        elif k[0] in "lX":
+            out.append("N64:" + k[1:])
+        else:
+            out.append(k)
+    return out
+
+
+def indent_violations(text, tab):
+    bad = []
+    depth = 0
+    w = min(tab, 15)
+    instr = False
+    for line in text.split(b"\n"):
+        stripped = line.lstrip(b" \t")
+        lead = line[:len(line) - len(stripped)]
+        # a member line starts with a name followed by = or :
+        m = re.match(rb"[A-Za-z\*][-A-Za-z0-9_\*]* [=:] ", stripped)
+        closing = stripped.startswith(b"}")
+        d = depth - (1 if closing else 0)
+        if (m or closing or stripped.startswith(b"{")) and not instr:
+            want = (b"\t" * d) if w == 0 else (b" " * (d * w))
+            if lead != want and not (d == 0 and lead == b""):
+                bad.append("line %r: indentation %r, expected %d level(s) x width %d" % (line[:40], lead, d, w))
+        # track nesting outside strings
+        i = 0
+        while i < len(stripped):
+            ch = stripped[i:i + 1]
+            if instr:
+                if ch == b"\\":
+                    i += 1
+                elif ch == b"\"":
+                    instr = False
+            else:
+                if ch == b"\"":
+                    instr = True
+                elif ch in b"{([":
+                    depth += 1
+                elif ch in b"})]":
+                    depth -= 1
+            i += 1
+    return bad
+
+
+def writer_cases(rng, ntrees, vectors, big=False):
+    cases = []
+    for t in range(ntrees):
+        root = gen_api.gen_tree(rng, max_depth=rng.choice([1, 2, 3, 4]), max_fan=rng.choice([2, 3, 5]), big=(big and t % 5 == 0))
+        body = ["init"] + gen_api.tree_script(root)
+        # some own hex formats
+        for p, n in gen_api.all_nodes(root):
+            if n.ty in (gen_api.T_INT, gen_api.T_INT64) and rng.random() < 0.3:
+                body.append("setfmt %s 1" % gen_api.path_str(p))
+        body.append("dump")
+        for (o, tab, prec, dfmt) in vectors:
+            body += ["options %d" % o, "tab %d" % tab, "prec %d" % prec, "deffmt %d" % dfmt, "write"]
+        cases.append("\n".join(body) + "\n")
+    return cases
+
+
+def written_texts(script, lines):
+    """[(options, tab, prec, deffmt, text)] of every 'write' of the script"""
+    al = align(script, lines)
+    cur = [0x16, 2, 6, 0]
+    res = []
+    for op, out in al:
+        f = op.split(" ")
+        if f[0] == "options":
+            cur[0] = int(f[1])
+        elif f[0] == "tab":
+            cur[1] = int(f[1]) % 65536
+        elif f[0] == "prec":
+            cur[2] = int(f[1])
+        elif f[0] == "deffmt":
+            cur[3] = int(f[1])
+        elif op == "write" and out and out[0].startswith("R sh"):
+            res.append((cur[0], cur[1], cur[2], cur[3], bytes.fromhex(out[0][4:])))
+    return res
+
+
+def c19_oracle(script, rec):
+    bad = died(script, rec)
+    ws = written_texts(script, rec["impl"])
+    if not ws:
+        return bad
+    ref = None
+    for (o, tab, prec, dfmt, text) in ws:
+        nt = norm_tokens(text)
+        if ref is None:
+            ref = (nt, (o, tab, prec, dfmt))
+        elif nt != ref[0]:
+            d = first_diff(ref[0], nt)
+            bad.append("options/tab/prec/deffmt %s vs %s: token sequences differ at token #%d (%s vs %s)" % (
+                ref[1], (o, tab, prec, dfmt), d[0], d[1], d[2]))
+            break
+        iv = indent_violations(text, tab)
+        if iv:
+            bad.append("options %s: %s" % ((o, tab, prec, dfmt), iv[0]))
+            break
+        if (o & 2) == 0 and b";" in re.sub(rb"\"(\\.|[^\"\\])*\"", b"", text):
+            bad.append("semicolons written although the option is off")
+        want_g = b":" if o & 4 else b"="
+        for mm in re.finditer(rb"(?m)^[ \t]*[A-Za-z\*][-A-Za-z0-9_\*]* ([=:]) (\n[ \t]*)?\{", text):
+            if mm.group(1) != want_g:
+                bad.append("group assignment character %r with options %d" % (mm.group(1), o))
+                break
+    return bad
+
+
+def run_c19(ctx):
+    res = Result()
+    rc = replay_cases(ctx)
+    vectors = option_vectors(ctx.rng, 6 if ctx.tier == "quick" else 40)
+    cases = rc if rc is not None else writer_cases(ctx.rng, 120 if ctx.tier == "quick" else 2500, vectors)
+    res.rule = ("generated trees (every scalar type incl. boundary values, NULL/escaped strings, nested groups/lists/arrays, "
+                "own hex formats) written under %d option vectors (each output bit toggled alone, tab 0..200, precision 0..17, "
+                "both default formats, random vectors): config_write text compared byte for byte with the model; model-free: "
+                "every variant tokenised with the documented tokenizer must give the same sequence up to semicolons, float "
+                "spellings and default-format integers, and every member line must carry depth x min(tab,15) spaces (tabs "
+                "for width 0)" % len(vectors))
+    res.distinct = len(set(cases))
+    res.distribution["option_vectors"] = len(vectors)
+    res.distribution["ops"] = summarize_ops(cases[:20])
+    res.samples = [cases[0][:600]] if cases else []
+    correspond(ctx, res, cases, drop_prefixes=("E ",), oracle=c19_oracle,
+               known=lambda s, r, o: match_known("C19", s, r, o), per_proc=6)
+    return res
+
+
+REGISTRY["C19"] = dict(module="Properties_C19", run=run_c19)
